@@ -255,17 +255,17 @@ Definition mix_run (id : N) (ins envs : list (option N)) (p : N) : N :=
                         | None => (a * 1000003) mod mix_mod end)
             (ins ++ [Some 424242] ++ envs) ((id * 7919 + p + 17) mod mix_mod).
 
-(* model log versus observed log: the same set of steps executed their command; every step the
-   model hash-checks and skips was skipped by the implementation too (the implementation may
-   re-check more steps: a step is re-checked at every restart once one of its variables differs
-   from the value recorded at declaration time, see finding F6) *)
+(* model log versus observed log: the same steps executed their command and the same steps were
+   hash-checked and skipped *)
 Definition log_eqb (model observed : list (N * bool)) : bool :=
   let ran l := map fst (filter snd l) in
   let skipped l := map fst (filter (fun x => negb (snd x)) l) in
   Nat.eqb (length (ran model)) (length (ran observed)) &&
   forallb (fun x => memN x (ran observed)) (ran model) &&
   forallb (fun x => memN x (ran model)) (ran observed) &&
-  forallb (fun x => memN x (skipped observed)) (skipped model).
+  Nat.eqb (length (skipped model)) (length (skipped observed)) &&
+  forallb (fun x => memN x (skipped observed)) (skipped model) &&
+  forallb (fun x => memN x (skipped model)) (skipped observed).
 
 Definition src_of (l : list (N * N)) : N -> option N :=
   fun p => match find (fun x => fst x =? p) l with Some x => Some (snd x) | None => None end.
